@@ -4,6 +4,7 @@ CONSTANTS
   Types = {"Small", "Str", "Sp", "CStr", "Nest"}
   Vals = {1, 2}
   Fuses = {0, 1}
+  AFuses = {0, 1}
   MCCastForms <- AllCastForms
   CountOps = TRUE
 ACTION_CONSTRAINT EmitOp
